@@ -122,3 +122,11 @@ impl OutgoingMessageOrchestrator {
     }
   }
 }
+
+#[cfg(rzmq_verif)]
+impl OutgoingMessageOrchestrator {
+  /// Verification facade only: the balancer this orchestrator rotates over.
+  pub fn verif_balancer(&self) -> &LoadBalancer {
+    &self.load_balancer
+  }
+}
